@@ -94,4 +94,32 @@ def treeOKL (g : Gram) (k : Kinds) : List PT → Bool
   | x :: xs => treeOK g k x && treeOKL g k xs
 end
 
+/-- spec of the rule-kind dispatch, clause by clause as the property states it ("first" is
+spelled out as a split of the children, not computed): what the node `t` yields.
+The attributes of an object are those `procAttrs` collects (object construction is not this
+property's subject); an assignment node on its own yields nothing (it is consumed by the object). -/
+inductive Yields (k : Kinds) : PT → Val → Prop
+  /-- a simple match yields its (converted) plain value -/
+  | term {raw val : String} : Yields k (.term raw val) (.prim val)
+  | asgn {a : String} {ks : List PT} : Yields k (.asgn a ks) (.prim "")
+  /-- a match rule yields a plain value: the converted values of what it matched, joined -/
+  | mtch {r : Nat} {kids : List PT} : k r = .mtch → Yields k (.nt r kids) (.prim (flatL kids))
+  /-- a common rule yields an object of its own class -/
+  | common {r : Nat} {kids : List PT} : k r = .common → Yields k (.nt r kids) (.obj r (procAttrs k kids))
+  /-- an abstract rule whose alternative matched a single thing yields what that yields -/
+  | single {r : Nat} {x : PT} {v : Val} : k r = .abstr → Yields k x v → Yields k (.nt r [x]) v
+  /-- an abstract rule yields what its first non-match reference yields (`pre`: match rules and
+  simple matches in front of it) -/
+  | firstNM {r : Nat} {pre post : List PT} {x : PT} {v : Val} : k r = .abstr →
+      (pre ++ x :: post).length ≠ 1 → (∀ y ∈ pre, PT.isNM k y = false) → PT.isNM k x = true →
+      Yields k x v → Yields k (.nt r (pre ++ x :: post)) v
+  /-- only match rules, one of them with a node of its own: what the first such node yields
+  (known finding C03-KF1: the text of that rule alone) -/
+  | onlyMatchNT {r : Nat} {pre post : List PT} {x : PT} {v : Val} : k r = .abstr →
+      (pre ++ x :: post).length ≠ 1 → (∀ y ∈ pre ++ x :: post, PT.isNM k y = false) →
+      (∀ y ∈ pre, y.isNT = false) → x.isNT = true → Yields k x v → Yields k (.nt r (pre ++ x :: post)) v
+  /-- only simple matches: the concatenated matched text -/
+  | text {r : Nat} {kids : List PT} : k r = .abstr → kids.length ≠ 1 → (∀ y ∈ kids, y.isNT = false) →
+      Yields k (.nt r kids) (.prim (rawL kids))
+
 end RuleTypes
